@@ -513,7 +513,7 @@ def r6_locks(ctx):
                             locks.add(t.id)
         if not locks:
             continue
-        threadfuncs = [f for f in fn.nested.values() if not f.is_async]
+        threadfuncs = [f for f in fn.all_nested() if not f.is_async]
         # shared variables: own names mutated inside nested thread functions
         info = {}
         for f in threadfuncs:
@@ -581,6 +581,11 @@ def r6_locks(ctx):
                         break
                     if isinstance(anc, (ast.If, ast.While)):
                         used = {x.id for x in ast.walk(anc.test) if isinstance(x, ast.Name)} & set(derived)
+                        # a local that refers to a shared mutable entry (`entry = table[k]`) and is only read through
+                        # (`entry.users`, `entry[0]`) yields the current state at the time of the test, not a remembered decision
+                        through = {x.value.id for x in ast.walk(anc.test) if isinstance(x, (ast.Attribute, ast.Subscript)) and isinstance(x.value, ast.Name)}
+                        bare = {x.id for x in ast.walk(anc.test) if isinstance(x, ast.Name) and not (isinstance(getattr(x, '_parent', None), (ast.Attribute, ast.Subscript)) and x._parent.value is x)}
+                        used = {d for d in used if not (d in aliases and d in through and d not in bare)}
                         for d in used:
                             ctx.check(
                                 derived[d] is wm,
